@@ -354,7 +354,7 @@ func e2eCase(in map[string]any) map[string]any {
 		if o.err != nil && strings.HasPrefix(o.err.Error(), "ESCAPED-PANIC") {
 			out["escaped_panic"] = true
 		}
-	case <-time.After(10 * time.Second):
+	case <-time.After(30 * time.Second):
 		out["hang"] = true
 		cancel()
 	}
